@@ -363,3 +363,154 @@ Example c19_splunk_nonvacuous :
       | Ok a => (map rq_body (at_reqs a), at_ret a) | _ => ([], 9) end)
      = ([envelope ex_scfg ex_s1 ++ envelope ex_scfg ex_s2 ++ envelope ex_scfg ex_s3], 1).
 Proof. split; [exact ex_scfg_ok|split; [exact ex_scopy_ok|repeat split; vm_compute; reflexivity]]. Qed.
+
+(* ---- round 5 (seed C19-r5-kafka-stale-topic): routing -------------------------------------------
+   The predicate's routing clause (route_pred): every carried document travels with the routing value of
+   its own event.  kafka: the topic of a record is the event's own topic_field value when use_topic_field
+   is set and that value is a non-empty string, default_topic otherwise *)
+Theorem c19_kafka_topic_of_event :
+  forall c e,
+  (k_use_field c = true -> ev_topic e <> [] -> k_topic c e = ev_topic e)
+  /\ (k_use_field c = false \/ ev_topic e = [] -> k_topic c e = k_default c)
+  /\ (forall e2, ev_topic e2 = ev_topic e -> k_topic c e2 = k_topic c e).
+Proof. exact k_topic_spec. Qed.
+Print Assumptions c19_kafka_topic_of_event.
+
+(* one call of out(), any previous content of the worker's buffer / records, any answer: the producer is
+   handed, per deliverable event of THIS batch and in batch order, one record with that event's topic
+   (observed with status -1) and that event's encoding (observed with the answer) — nothing else *)
+Theorem c19_kafka_out_routing :
+  forall c batch prev script, len (deliverable batch) <= k_batch_size c ->
+  exists a, kafka_out c batch prev script = Ok a
+    /\ map req_obs (at_reqs a)
+       = flat_map (fun e => [(k_topic c e, -1); (enc e, fst (next_status script))]) (deliverable batch)
+    /\ at_buf a = concat (map enc (deliverable batch)).
+Proof. exact kafka_out_routing. Qed.
+Print Assumptions c19_kafka_out_routing.
+
+(* topic independence: inside ANY batch that contains the deliverable event e the record at e's place
+   carries k_topic c e and enc e — functions of e and the configuration alone *)
+Theorem c19_kafka_topic_independent :
+  forall c e pre post prev script,
+  is_parent e = false -> len (deliverable (pre ++ e :: post)) <= k_batch_size c ->
+  exists a, kafka_out c (pre ++ e :: post) prev script = Ok a
+    /\ map req_obs (at_reqs a)
+       = k_obs c (fst (next_status script)) (deliverable pre)
+         ++ [(k_topic c e, -1); (enc e, fst (next_status script))]
+         ++ k_obs c (fst (next_status script)) (deliverable post).
+Proof. exact kafka_topic_independent. Qed.
+Print Assumptions c19_kafka_topic_independent.
+
+(* no cross-event leakage: permuting, replacing or removing the OTHER events of the batch (and changing
+   the buffer history or the answers) changes neither the topic nor the value of e's record *)
+Theorem c19_kafka_no_cross_event_leak :
+  forall c e pre1 post1 pre2 post2 p1 s1 p2 s2,
+  is_parent e = false ->
+  len (deliverable (pre1 ++ e :: post1)) <= k_batch_size c ->
+  len (deliverable (pre2 ++ e :: post2)) <= k_batch_size c ->
+  exists a1 a2,
+    kafka_out c (pre1 ++ e :: post1) p1 s1 = Ok a1 /\ kafka_out c (pre2 ++ e :: post2) p2 s2 = Ok a2
+    /\ nth_error (map rq_body (at_reqs a1)) (2 * length (deliverable pre1)) = Some (k_topic c e)
+    /\ nth_error (map rq_body (at_reqs a2)) (2 * length (deliverable pre2)) = Some (k_topic c e)
+    /\ nth_error (map rq_body (at_reqs a1)) (S (2 * length (deliverable pre1))) = Some (enc e)
+    /\ nth_error (map rq_body (at_reqs a2)) (S (2 * length (deliverable pre2))) = Some (enc e).
+Proof. exact kafka_no_cross_event_leak. Qed.
+Print Assumptions c19_kafka_no_cross_event_leak.
+
+(* no cross-batch leakage: through ANY history of batches on one worker (records and buffer reused, failed
+   attempts offered again, any answers) every call of out() hands the producer exactly the (topic, value)
+   records of the batch it was called with, and every batch of the history is offered *)
+Theorem c19_kafka_history_routing :
+  forall c batches prev script,
+  Forall (fun b => len (deliverable b) <= k_batch_size c) batches ->
+  Forall (fun ba => exists a st, snd ba = Ok a
+                    /\ map req_obs (at_reqs a)
+                       = flat_map (fun e => [(k_topic c e, -1); (enc e, st)]) (deliverable (fst ba)))
+         (run_batches (kafka_out c) batches prev script)
+  /\ (forall b, In b batches -> In b (map fst (run_batches (kafka_out c) batches prev script))).
+Proof. exact kafka_history_routing. Qed.
+Print Assumptions c19_kafka_history_routing.
+
+(* the executable routing clause, on ANY observation of a kafka attempt, says exactly this: the observed
+   records are, in order, (k_topic c e, enc e) for the deliverable events of the batch *)
+Theorem c19_kafka_route_pred_iff :
+  forall cfgsx c batch m reqs ret,
+  kafka_of_sx cfgsx = Some c ->
+  (route_pred 3 cfgsx batch m (SL [SZ 0; SL reqs; SZ ret]) = true
+   <-> kafka_pairs reqs = Some (map (fun e => (k_topic c e, enc e)) (deliverable batch))).
+Proof. exact kafka_route_pred_iff. Qed.
+Print Assumptions c19_kafka_route_pred_iff.
+
+(* ... and the model satisfies it for every buffer history and every answer *)
+Theorem c19_kafka_model_routes :
+  forall cfgsx c batch prev script,
+  kafka_of_sx cfgsx = Some c -> len (deliverable batch) <= k_batch_size c -> fst (next_status script) <> -1 ->
+  route_pred 3 cfgsx batch (kafka_out c batch prev script) (sx_flat (kafka_out c batch prev script)) = true.
+Proof. exact kafka_model_routes. Qed.
+Print Assumptions c19_kafka_model_routes.
+
+(* elasticsearch: the action line (index name) reads nothing of an event but its own index values *)
+Theorem c19_es_action_line_local :
+  forall c e1 e2, ev_raw e1 = ev_raw e2 -> ev_esc e1 = ev_esc e2 -> es_header_of c e1 = es_header_of c e2.
+Proof. exact es_header_local. Qed.
+Print Assumptions c19_es_action_line_local.
+
+(* action-line independence: in the payload of ANY batch that contains the deliverable event e, whatever
+   the other events, the buffer history and the answers are, e's place holds its own action line followed
+   by its own document *)
+Theorem c19_es_action_line_independent :
+  forall c e pre post prev script,
+  es_cfg_ok c -> is_parent e = false ->
+  exists a, es_out c (pre ++ e :: post) prev script = Ok a
+    /\ at_buf a = es_payload c pre ++ (es_header_of c e ++ [NL] ++ enc e ++ [NL]) ++ es_payload c post
+    /\ slice (at_buf a) (len (es_payload c pre)) (len (es_payload c pre) + len (es_header_of c e))
+       = Ok (es_header_of c e).
+Proof. exact es_action_line_independent. Qed.
+Print Assumptions c19_es_action_line_independent.
+
+(* the routing clause's cutter reads from the frames of any events exactly their (action line, document)
+   pairs (hypotheses = the oracle checks), and the model's observation satisfies the clause *)
+Theorem c19_es_route_pairs :
+  forall c evs,
+  es_cfg_ok c -> es_cfg_plain c -> Forall esc_safe evs -> Forall enc_line_safe evs ->
+  es_pairs (concat (map (es_frame_of c) evs)) = Some (map (fun e => (es_route c e, enc e)) evs)
+  /\ forall e, es_route c e = es_header_of c e.
+Proof. exact (fun c evs Hc Hp He Hl => conj (es_pairs_frames c evs Hc Hp He Hl) (fun e => es_route_ok c e Hc)). Qed.
+Print Assumptions c19_es_route_pairs.
+
+Theorem c19_es_model_routes :
+  forall cfgsx c pr batch prev script,
+  es_of_sx cfgsx = Some (c, pr) -> es_cfg_ok c -> es_cfg_plain c -> es_split c = false ->
+  Forall esc_safe (deliverable batch) -> Forall enc_line_safe (deliverable batch) ->
+  route_pred 0 cfgsx batch (es_out c batch prev script) (sx_flat (es_out c batch prev script)) = true.
+Proof. exact es_model_routes. Qed.
+Print Assumptions c19_es_model_routes.
+
+(* with or without split_batch, for every buffer history and every script of answers: every request out()
+   makes — also one answered 413 / 5xx / with a rejected body — consists, in order, of (action line,
+   document) pairs of the batch's deliverable events, each action line the event's own (the third
+   conjunct of the routing clause) *)
+Theorem c19_es_requests_routed :
+  forall c batch prev script,
+  es_cfg_ok c -> es_cfg_plain c ->
+  Forall esc_safe (deliverable batch) -> Forall enc_line_safe (deliverable batch) ->
+  exists a, es_out c batch prev script = Ok a
+    /\ es_all_routed (map (fun e => (es_route c e, enc e)) (deliverable batch)) (map sx_of_req (at_reqs a)) = true.
+Proof. exact es_requests_routed. Qed.
+Print Assumptions c19_es_requests_routed.
+
+(* non-vacuity: kafka with use_topic_field, default "d", on one worker first [topic a; parent (topic x); no
+   topic], then [no topic; topic b] after a failed produce of the first batch: the records are
+   a, d | a, d (offered again) | d, b — and an observation in which the second batch's first record kept the
+   topic "a" of the slot's earlier occupant is rejected by the routing clause *)
+Example c19_routing_nonvacuous :
+  map (fun ba => match snd ba with Ok a => map rq_body (filter (fun q => rq_status q =? -1) (at_reqs a)) | _ => [] end)
+      (run_batches (kafka_out ex_kcfg) [[ex_k1; ex_k2; ex_k3]; [ex_k3; ex_k4]] [] [500])
+    = [[[97]; [100]]; [[97]; [100]]; [[100]; [98]]]%N
+  /\ route_pred 3 (SL [SB [100]%N; SZ 1; SZ 4]) [ex_k3; ex_k4] (kafka_out ex_kcfg [ex_k3; ex_k4] [] [])
+       (SL [SZ 0; SL [SL [SB [100]%N; SZ (-1)]; SL [SB (enc ex_k3); SZ 200]; SL [SB [98]%N; SZ (-1)]; SL [SB (enc ex_k4); SZ 200]]; SZ 0]) = true
+  /\ route_pred 3 (SL [SB [100]%N; SZ 1; SZ 4]) [ex_k3; ex_k4] (kafka_out ex_kcfg [ex_k3; ex_k4] [] [])
+       (SL [SZ 0; SL [SL [SB [97]%N; SZ (-1)]; SL [SB (enc ex_k3); SZ 200]; SL [SB [98]%N; SZ (-1)]; SL [SB (enc ex_k4); SZ 200]]; SZ 0]) = false
+  /\ att_docs_pred 3 (SL [SB [100]%N; SZ 1; SZ 4]) [ex_k3; ex_k4] (kafka_out ex_kcfg [ex_k3; ex_k4] [] [])
+       (SL [SZ 0; SL [SL [SB [97]%N; SZ (-1)]; SL [SB (enc ex_k3); SZ 200]; SL [SB [98]%N; SZ (-1)]; SL [SB (enc ex_k4); SZ 200]]; SZ 0]) = true.
+Proof. repeat split; vm_compute; reflexivity. Qed.
